@@ -25,6 +25,12 @@ NAMES = ["nordicsemi.com", "nRF54H20_sample_root", "", "a", "é中\U0001f600", "
          "{7d9f1e2a-4b3c-4d5e-8f60-a1b2c3d4e5f6}", "6ba7b810-9dad-11d1-80b4-00c04fd430c8", "0x10", " padded ", "NordicSemi.com", "0", "None", "a\\b"]
 
 
+SPECIAL_PAIRS = [(("acme.example", "9160"), ("acme.example", "0x54")), (("y", "y"), ("n", "0")), (("0x1F", "42"), ("42", "0x1F")),
+                 (("example.com/lighting", "bulb"), ("example.com", "lighting/bulb")), (("a b", "c"), ("a", "b c")), (("a", "b,c"), ("a,b", "c")),
+                 (("a:b", "c"), ("a", "b:c")), (("a", "b|c"), ("a|b", "c")), (("ab", "c"), ("a", "bc")), (("x.example", "y"), ("x.example", "Y")),
+                 (("acme.example", "é"), ("acme.example", "e")), (("Ölpumpe.example", "Wärmepumpe_app"), ("müller-geräte.example", "rad"))]
+
+
 def rfc4122_v5(ns: bytes, name: str) -> bytes:
     h = bytearray(hashlib.sha1(ns + name.encode("utf-8")).digest()[:16])
     h[6] = (h[6] & 0x0F) | 0x50
@@ -135,6 +141,13 @@ def run(tier: str, seed: int) -> int:
                 v1, c1 = dv, dc
                 lines = [f'SB_CONFIG_SUIT_MPI_{c07.CONFIGURABLE[roles[0]]}_VENDOR_NAME="{v1}"', f'SB_CONFIG_SUIT_MPI_{c07.CONFIGURABLE[roles[0]]}_CLASS_NAME="{c1}"']
             elif kind == "assign":
+                if i % 12 == 1 or rng.random() < 0.25:
+                    # names that look like other kconfig value kinds once the quotes are gone, and pairs of distinct pairs whose joined spellings coincide
+                    (v1, c1), (v2, c2) = rng.choice(SPECIAL_PAIRS) if i % 12 != 1 else SPECIAL_PAIRS[(i // 12) % len(SPECIAL_PAIRS)]
+                    if rng.random() < 0.5:
+                        (v1, c1), (v2, c2) = (v2, c2), (v1, c1)
+                    lines = [f'SB_CONFIG_SUIT_MPI_{c07.CONFIGURABLE[roles[0]]}_VENDOR_NAME="{v1}"', f'SB_CONFIG_SUIT_MPI_{c07.CONFIGURABLE[roles[0]]}_CLASS_NAME="{c1}"']
+                    res.count("kconfig:special-names")
                 lines += [f'SB_CONFIG_SUIT_MPI_{c07.CONFIGURABLE[roles[1]]}_VENDOR_NAME="{v2}"', f'SB_CONFIG_SUIT_MPI_{c07.CONFIGURABLE[roles[1]]}_CLASS_NAME="{c2}"']
             elif kind == "missing-class":
                 lines = lines[:1]
